@@ -80,13 +80,14 @@ func (m *TapeManager) GetReader() (config.DriveReaderConfig, error) {
 }
 
 func (m *TapeManager) Close() error {
+	// Release the drive even if closing it fails; it can't be closed again, and every later operation would wait for it forever
+	defer m.physicalLock.Unlock()
+
 	if m.closer != nil {
 		if err := m.closer(); err != nil {
 			return err
 		}
 	}
-
-	m.physicalLock.Unlock()
 
 	return nil
 }
